@@ -1583,3 +1583,34 @@ package formula
 //@   ensures[C20,C07] r.world == step(old(r.world), v) && result1 == errOf(old(r.world), v)
 //@   ensures[C04] result1 == nil && num(valOf(old(r.world), v)) ==> result0 == box(d2f(nval(valOf(old(r.world), v))), float64)
 //@   ensures[C20] result1 == nil && !num(valOf(old(r.world), v)) ==> result0 == valOf(old(r.world), v)
+
+// ---------------------------------------------------------------------------
+// Names and member access (C16)
+// ---------------------------------------------------------------------------
+
+// x.k on a string-keyed map of the caller (map[string]interface{}): the entry, null when absent;
+// on null: null; a map whose keys are not strings and a missing or unexported struct field
+// are errors (C03).
+//@ func getObjectValueFromKey
+//@   tags [C16,C03]
+//@   requires wfv(v)
+//@   panics never
+//@   ensures wfv(result0) && (result1 != nil ==> result0 == nil)
+//@   ensures[C16] isNullAny(v) ==> result0 == nil && result1 == nil
+//@   ensures[C16] strMap(v) ==> result1 == nil && result0 == (mapHas(ptr(v, map[string]interface{}), key) ? ptr(v, map[string]interface{})[key] : nil)
+//@   ensures[C03] !isNullAny(v) && rkind(typeOf(v)) == 21 && rkind(tKey(typeOf(v))) != 24 ==> result1 != nil
+//@   ensures[C03] !isNullAny(v) && rkind(typeOf(v)) == 25 && !(sHasField(typeOf(v), key) && sExported(typeOf(v), key)) ==> result1 != nil
+//@   ensures[C16] !isNullAny(v) && rkind(typeOf(v)) == 25 && sHasField(typeOf(v), key) && sExported(typeOf(v), key) ==> result1 == nil && result0 == sField(v, key)
+
+//@ func (*Runner).resolveSelectorExpression
+//@   tags [C16,C03]
+//@   requires rpre(r) && expr != nil && treeok(box(expr, *SelectorExpression))
+//@   assigns evalFrame(r)
+//@   panics never
+//@   decreases expr, 2
+//@   ensures[C03] result1 != nil ==> result0 == nil
+//@   ensures wfv(result0) && rpost(r)
+//@   ensures r.world == step(old(r.world), expr.Expression)
+//@   ensures[C16] errOf(old(r.world), expr.Expression) != nil ==> result1 != nil
+//@   ensures[C16] errOf(old(r.world), expr.Expression) == nil && isNullAny(valOf(old(r.world), expr.Expression)) ==> (expr.Assert ? result1 != nil : (result1 == nil && result0 == nil))
+//@   ensures[C16] errOf(old(r.world), expr.Expression) == nil && strMap(valOf(old(r.world), expr.Expression)) ==> result1 == nil && result0 == (isNullAny(ptr(valOf(old(r.world), expr.Expression), map[string]interface{})[expr.Name.Value]) ? nil : ptr(valOf(old(r.world), expr.Expression), map[string]interface{})[expr.Name.Value])
